@@ -72,7 +72,8 @@ def run_tlc(module, cfg, workdir, env=None, workers=1, timeout=1800, xmx='3g',
   shutil.rmtree(meta, ignore_errors=True)
   if not os.path.isabs(cfg):
     cfg = os.path.join(SPEC, cfg)
-  cmd = ['java', '-XX:+UseParallelGC', '-Xmx' + xmx, '-Xss64m']
+  cmd = ['java', '-XX:+UseParallelGC', '-XX:ParallelGCThreads=%d' % max(2, min(8, workers)), '-XX:CICompilerCount=2',
+         '-Xmx' + xmx, '-Xss64m']
   if deque:
     cmd.append('-Dtlc2.tool.queue.IStateQueue=StateDeque')
   cmd += ['-cp', SPEC + ':' + TLA_CP, 'tlc2.TLC', '-workers', str(workers), '-metadir', meta,
